@@ -22,7 +22,12 @@ func (e *Engine) VerifyFunc(b Bound) (u *Unit) {
 	if p := fnPkg(fn); p != nil {
 		pkgName = p.Pkg.Name()
 	}
-	u = newUnit(e, pkgName+"."+c.Key, modeOf(c.Arith, c.Floats))
+	uname := pkgName + "." + c.Key
+	if _, rel := e.FuncKeyOf(fn); rel != c.Key && stripTypeArgs(rel) == c.Key {
+		// an instance of a generic function: the unit is named after the instance
+		uname = pkgName + "." + strings.ReplaceAll(shortenPkgPaths(rel), ", ", ",")
+	}
+	u = newUnit(e, uname, modeOf(c.Arith, c.Floats))
 	u.FuncKey = c.Key
 	u.PkgPath = c.PkgPath
 	u.contract = c
@@ -411,4 +416,28 @@ func (e *Engine) resolveFrame(u *Unit, c *Contract, fn *ssa.Function, params, fr
 		}
 	}
 	u.frameInv = true
+}
+
+// shortenPkgPaths: github.com/x/y/pkg.T -> pkg.T inside a function name
+func shortenPkgPaths(s string) string {
+	var b strings.Builder
+	i := 0
+	for i < len(s) {
+		j := i
+		for j < len(s) && (isIdentByte(s[j]) || s[j] == '/' || s[j] == '.' || s[j] == '-') {
+			j++
+		}
+		if j > i {
+			tok := s[i:j]
+			if k := strings.LastIndex(tok, "/"); k >= 0 {
+				tok = tok[k+1:]
+			}
+			b.WriteString(tok)
+			i = j
+			continue
+		}
+		b.WriteByte(s[i])
+		i++
+	}
+	return b.String()
 }
